@@ -281,13 +281,24 @@ def run(prog, rep):
                         rep.instance('R4', f'{shell}.__init__: {norm(n)}')
                         p = n
                         guarded = False
+                        tested_inside = False
+                        tests_seen = []
                         while p is not None and p is not init:
                             p = getattr(p, '_parent', None)
+                            if isinstance(p, ast.If) and any(isinstance(x, ast.Attribute) and x.attr == 'storage_instance' for x in ast.walk(p.test)):
+                                tests_seen.append(p)
                             if isinstance(p, (ast.With, ast.AsyncWith)):
                                 for it in p.items:
                                     txt = ast.unparse(it.context_expr)
                                     if 'lock' in txt.lower():
                                         guarded = True
+                                        # the existence test that decides the creation must have been evaluated under this lock
+                                        tested_inside = any(any(x is t_ for x in ast.walk(p)) for t_ in tests_seen)
+                        if guarded and not tested_inside:
+                            rep.violation('R4', loc(mod, n), f'{shell}.__init__', f'{norm(n, 70)} (existence test outside the lock)',
+                                          'the singleton is created under the lock, but whether it already exists is only tested before the '
+                                          'lock is taken and not again inside it: two threads that both find it missing create it one after '
+                                          'the other, and the second store replaces the first - graphs already added to the first are lost')
                         # the test must be inside the same with
                         if not guarded:
                             rep.violation('R4', loc(mod, n), f'{shell}.__init__', norm(n),
